@@ -265,8 +265,9 @@ CLAIMED = {
                 "of the path in the resulting tree, the new entries form exactly one chain of directories with mode&~umask (|setgid), nothing "
                 "else changed; on failure only one chain of directories was added; racing callers on equal/overlapping paths all succeed "
                 "with handles to the directories now at their paths.",
-        "note": COMMON_NOTE + "Partial: the end-to-end functional theorem is proved for the kernel backend; for the emulated backend the loop "
-                "theorem applies but its partial lookup (symlink stack) is tied by the two-backend differential (C04) and T1 only. Modes are not in "
+        "note": COMMON_NOTE + "Partial: the end-to-end functional theorem is proved for the kernel backend; for the emulated backend everything "
+                "after the partial lookup is proved given the lookup's result (C12_mkdir_all_either_backend_given_lookup), and that result "
+                "(symlink stack) is tied by the two-backend differential (C04), T1 and T3, not proved. Modes are not in "
                 "the tree model (the mode handed to mkdirat is part of the all-answers theorems; umask/setgid are judged at run time). Convergence "
                 "under races: proved on the model for environments that only create directories; hostile environments (renames, removals) and the real scheduler are "
                 "the racing and schedule runs. The dynamic kernel model is tied by T2d (every answer of recorded "
